@@ -1,4 +1,4 @@
-CONSTANTS Check = {"C10", "C11", "C13", "C15"}
+CONSTANTS Check = {"C10", "C11", "C12", "C13", "C15"}
 SPECIFICATION TSpec
 POSTCONDITION Accepted
 CHECK_DEADLOCK FALSE
